@@ -309,6 +309,24 @@ func driverMain() int {
 		mergeStats(tot, r.st)
 	}
 	known, _ := LoadKnown(filepath.Join(verifDir(), "known_findings.json"))
+	// C15 only: the free-running race-detector pass (see racepass.go); its reports join the
+	// violations of the enumeration, its facts go into the evidence
+	var raceCov map[string]any
+	if bin := os.Getenv("VERIF_RACE_BIN"); id == "C15" && bin != "" {
+		var rv []FoundViolation
+		var rerr bool
+		raceCov, rv, rerr = runRacePass(bin, tmp, tier)
+		harnessErr = harnessErr || rerr
+		for _, v := range rv {
+			if known != nil {
+				if i := known.Match(v.Violation, v.Scenario); i >= 0 {
+					tot.Known[fmt.Sprintf("%s %d", v.Prop, i)]++
+					continue
+				}
+			}
+			tot.Violations = append(tot.Violations, v)
+		}
+	}
 	// distinct violations across workers
 	seen := map[string]bool{}
 	var viols []FoundViolation
@@ -364,6 +382,9 @@ func driverMain() int {
 		"workers":                       workers,
 		"budget_s":                      budget.Seconds(),
 		"explanation":                   "every execution is an execution of the real implementation (instrumented build of /repo's working tree) under the controlled scheduler; states = distinct control states (thread program points + carrier queues + observation count) seen at quiescent points; distinct_nontrivial = distinct orders of conflicting accesses (per synchronisation object touched by >= 2 threads) among the executions",
+	}
+	if raceCov != nil {
+		cov["race_pass"] = raceCov
 	}
 	if len(tot.Incomplete) > 0 {
 		n := tot.Incomplete
